@@ -152,6 +152,13 @@ func infoScenarios(tier string) []*simScenario {
 	net.Name = "info-snap-lagging-net"
 	net.Menu = simMenu{Drops: true, Clients: []string{"update"}, MaxUpdates: 1, ClientNodes: []int{0}}
 	out = append(out, net)
+	// a follower's configuration fall-back after an overwritten configuration entry: above a snapshot of its own, and
+	// after two configuration entries received in one request (regression scenarios of C08, here under the info oracle)
+	for _, b := range []*simScenario{scenSnapUncommittedConfig(1), scenTwoConfigsOneRequest(1)} {
+		sc := cloneScenario(b)
+		sc.Name = "info-" + b.Name
+		out = append(out, sc)
+	}
 	for _, b := range []*simScenario{
 		scenMember(memberSeedByName("phantom-config"), dev, 1, 0, false, nil, 0),
 		scenRepl(replSeedByName("divergent"), dev, false, 1, 1, 4),
